@@ -1,5 +1,5 @@
 (* Props/C06.v -- C06: signature completeness. *)
-From Rpgp Require Import Base.Octets Base.Res Text.Canon Text.Cleartext Sig.Preimage Sig.Verify Sig.Complete.
+From Rpgp Require Import Base.Octets Base.Res Text.Canon Text.Cleartext Sig.Preimage Sig.Verify Sig.Complete Frame.Framing Io.Emitter Msg.SignGen Msg.SignGenComplete.
 
 (* a signature made over pre-image P is accepted by every verifying path that
    computes the same subject octets (the rest of P is read from the packet) *)
@@ -38,6 +38,26 @@ Theorem C06_cleartext_paths_agree :
 Proof. exact cleartext_paths_agree. Qed.
 Print Assumptions C06_cleartext_paths_agree.
 
+(* the message builder with any number of signers: for every sequence of request sizes the stream carries one signature
+   per signer over the WHOLE payload, and each is accepted by every verifying path that computes the same subject octets *)
+Theorem C06_builder_signatures_verify :
+  forall (H : bytes -> bytes) (pkt : signer -> bytes -> bytes -> bytes) k h, lenN h < 2 ^ k ->
+  forall (signers : list signer) (req : N -> N) (ops : list bytes) (payload : bytes),
+    (forall s, In s signers -> forall d, s_vrfy s d (s_sign s d) = true) ->
+    sg_run k h (fun d => map (sig_packet H pkt d) signers) req ops payload =
+      (concat ops ++ emit_partial 11 k h payload ++ concat (map (sig_packet H pkt payload) signers), EClean) /\
+    (forall s, In s signers -> forall payload',
+        subject_bytes (s_v s) (SDoc (s_text s) payload') = subject_bytes (s_v s) (SDoc (s_text s) payload) ->
+        accepts H (s_vrfy s) (s_pre s payload')
+                (make_prefix H (s_pre s payload)) (make_value H (s_sign s) (s_pre s payload)) = true).
+Proof. exact builder_emits_verifying_signatures. Qed.
+Print Assumptions C06_builder_signatures_verify.
+Theorem C06_text_mode_line_endings_do_not_matter :
+  forall (s : signer) payload payload',
+    s_text s = true -> canon payload' = canon payload ->
+    subject_bytes (s_v s) (SDoc (s_text s) payload') = subject_bytes (s_v s) (SDoc (s_text s) payload).
+Proof. exact text_mode_line_endings_do_not_matter. Qed.
+Print Assumptions C06_text_mode_line_endings_do_not_matter.
 Example C06_ex :
   nh_run true [[x61; CR]; [LF; x62; LF]] = nr_run [CR; LF] 3 [x61; CR; LF; x62; LF] /\ (1 <= 3).
 Proof. split; [reflexivity|discriminate]. Qed.
